@@ -310,7 +310,9 @@ class C10(Oracle):
             run.probes["private_home_base_without_fleets_file"] += 1
         self.pairs = 0
         self.req_fleet = {r["id"]: r.get("fleet") for r in run.spec.get("requests") or ()}
-        return c10_state_check(rp.s, -1) + self._as_assigned(run.spec, rp.s)
+        # (the runner ignores what start() returns: findings on the loaded state are handed over with the first step)
+        self.pending = self._as_assigned(run.spec, rp.s)
+        return ()
 
     @staticmethod
     def _as_assigned(spec, sim):
@@ -325,10 +327,35 @@ class C10(Oracle):
                     if e is not None and name not in e.membership.memberships:
                         out.append(V("C10", "membership_not_as_assigned", -1,
                                      f"{kind[:-1]} {eid} is listed under fleet {name} in the fleets file but carries {sorted(e.membership.memberships)}"))
+        # private home bases: a human driver's vehicle, its home base and the station that base charges through share the id
+        # <vehicle>_private_<base>.  When several drivers name one base (or two bases one station) only one of their ids survives
+        # on the base / station in this tree (seen, not counted: 11.2), so for those the rule asks for at least one of them.
+        homes = {}
+        for vid, v in sorted(sim.vehicles.items()):
+            b = getattr(v.driver_state, "home_base_id", None)
+            if b is None or b not in sim.bases:
+                continue
+            pid = f"{vid}_private_{b}"
+            homes.setdefault(b, []).append(pid)
+            if pid not in v.membership.memberships:
+                out.append(V("C10", "membership_not_as_assigned", -1, f"vehicle {vid} with home base {b} does not carry {pid}: {sorted(v.membership.memberships)}"))
+        by_station = {}
+        for b, pids in sorted(homes.items()):
+            base = sim.bases[b]
+            if not set(pids) & set(base.membership.memberships):
+                out.append(V("C10", "membership_not_as_assigned", -1, f"home base {b} carries none of {pids}: {sorted(base.membership.memberships)}"))
+            if base.station_id is not None and base.station_id in sim.stations:
+                by_station.setdefault(base.station_id, []).extend(pids)
+        for sid, pids in sorted(by_station.items()):
+            if not set(pids) & set(sim.stations[sid].membership.memberships):
+                out.append(V("C10", "membership_not_as_assigned", -1, f"station {sid} of a private home base carries none of {pids}: {sorted(sim.stations[sid].membership.memberships)}"))
         return out
 
     def step(self, ctx):
         out = c10_state_check(ctx.nxt, ctx.k)
+        if self.pending:
+            out += [V("C10", "membership_not_as_assigned", ctx.k, x["msg"]) for x in self.pending]
+            self.pending = []
         for rid, r in ctx.nxt.requests.items():
             if rid not in ctx.prev.requests and rid in self.req_fleet:
                 want = {self.req_fleet[rid]} if self.req_fleet[rid] else set()
